@@ -5,7 +5,6 @@
 //! Mirrors /verif/ocaml/m_conc.ml.
 #![cfg(eyeball_verif)]
 use crate::common::*;
-use crate::m_adapt::CountWaker;
 use crate::m_obs::{show, split_op, val, Val};
 use eyeball::{SharedObservable, Subscriber, WeakObservable};
 use futures_core::Stream;
@@ -15,6 +14,22 @@ use std::sync::atomic::{AtomicUsize, Ordering as AO};
 use std::sync::{Arc, Condvar, Mutex};
 use std::task::{Context, Poll, Waker};
 use std::time::{Duration, Instant};
+
+/// the director's step counter: incremented before every release and every step of the final
+/// sequential phase
+static STEP: AtomicUsize = AtomicUsize::new(0);
+
+/// a waker that records at which director steps it was woken: the number of distinct steps is the
+/// number of wake EVENTS, whether the waker list holds one entry per registration or de-duplicates
+struct EpochWaker(Mutex<std::collections::BTreeSet<usize>>);
+impl std::task::Wake for EpochWaker {
+    fn wake(self: Arc<Self>) {
+        self.wake_by_ref()
+    }
+    fn wake_by_ref(self: &Arc<Self>) {
+        self.0.lock().unwrap().insert(STEP.load(AO::SeqCst));
+    }
+}
 
 #[derive(Clone, Debug, PartialEq)]
 enum Phase {
@@ -140,11 +155,11 @@ pub fn run_line(line: &str, out: &mut String) {
     }
     owners.push(first);
     let mut subs: Vec<Arc<Mutex<Option<Subscriber<Val>>>>> = vec![];
-    let mut cws: Vec<Arc<CountWaker>> = vec![];
+    let mut cws: Vec<Arc<EpochWaker>> = vec![];
     let mut wakers: Vec<Waker> = vec![];
     for _ in 0..nsubs {
         subs.push(Arc::new(Mutex::new(Some(owners[0].subscribe()))));
-        let cw = Arc::new(CountWaker(AtomicUsize::new(0)));
+        let cw = Arc::new(EpochWaker(Mutex::new(Default::default())));
         wakers.push(Waker::from(cw.clone()));
         cws.push(cw);
     }
@@ -250,6 +265,7 @@ pub fn run_line(line: &str, out: &mut String) {
     // ---- the director ----
     let mut blocked: Vec<usize> = vec![];
     let mut do_release = |t: usize, pred: Option<&String>, blocked: &mut Vec<usize>| -> String {
+        STEP.fetch_add(1, AO::SeqCst);
         let slot = &slots[t];
         let (epoch0, phase) = {
             let st = slot.m.lock().unwrap();
@@ -385,6 +401,7 @@ pub fn run_line(line: &str, out: &mut String) {
         }
     }
     while let Some(o) = rest.pop() {
+        STEP.fetch_add(1, AO::SeqCst);
         drop(o);
     }
     let mut f2 = vec![];
@@ -393,7 +410,7 @@ pub fn run_line(line: &str, out: &mut String) {
         f2.push(poll_sub(g.as_mut().unwrap(), &wakers[k]));
     }
     let ended = f2.iter().all(|x| x == "N");
-    let wakes: Vec<usize> = cws.iter().map(|c| c.0.load(AO::SeqCst)).collect();
+    let wakes: Vec<usize> = cws.iter().map(|c| c.0.lock().unwrap().len()).collect();
     let wake_ok = (0..pend).all(|k| wakes[k] >= 1);
     let mut written: Vec<u32> = vec![0];
     let mut returned: Vec<u32> = vec![];
